@@ -779,18 +779,24 @@ func (w *Worker) flush() {
 			pend = nil
 		case Sat:
 			var rest []obl
+			reported := false
 			for _, o := range pend {
-				if m.Eval(o.cond) == 0 {
+				if m.Eval(o.cond) == 0 && !reported {
+					// only the first violated obligation (program order) is certain under this model
+					reported = true
 					w.reportViolation(o, m)
 					if o.cond.IsFalse() {
-						panic(pathEnd{kind: "panic", msg: o.id})
+						if o.kind == "panic" {
+							panic(pathEnd{kind: "panic", msg: o.id})
+						}
+						continue // a failed assertion does not stop the harness
 					}
 					w.addPC(o.cond)
 				} else {
 					rest = append(rest, o)
 				}
 			}
-			if len(rest) == len(pend) {
+			if !reported {
 				w.fail("model does not falsify any obligation")
 			}
 			pend = rest
